@@ -4,7 +4,7 @@
 //! acceptance rules are serde's), and renders the resulting value as a canonical `Val` string.
 //! This gives an unbounded generated family of target types without compiling a struct per case.
 //!
-//! Ty syntax (no spaces):  bool i64 u64 i32 u32 f64 f32 str any ign
+//! Ty syntax (no spaces):  bool i64 u64 i32 u32 u16 i16 u8 i8 f64 f32 str any ign
 //!                         opt(T) seq(T) map(T) prop(T) st(name:T;name:T;...) en(v1;v2;...)
 //! Val syntax (no spaces): b0 b1 i<n> u<n> f<bits64> g<bits32> s<hex> y<hex> none some(V) unit
 //!                         [V,V,...] {K=V,K=V,...} prop(<op>,V) nt(V) en(<name hex>) ign
@@ -17,6 +17,8 @@ use std::fmt;
 #[derive(Clone, Debug, PartialEq)]
 pub enum Ty {
     Bool, I64, U64, I32, U32, F64, F32, Str, Any, Ign,
+    /// narrower integers (serde's own impls: `deserialize_u16` / `_i16` / `_u8` / `_i8`, range-checked conversions)
+    U16, I16, U8, I8,
     Opt(Box<Ty>), Seq(Box<Ty>), Map(Box<Ty>), Prop(Box<Ty>),
     Struct(Vec<(String, Ty)>),
     Enum(Vec<String>),
@@ -26,6 +28,7 @@ pub fn show_ty(t: &Ty) -> String {
     match t {
         Ty::Bool => "bool".into(), Ty::I64 => "i64".into(), Ty::U64 => "u64".into(), Ty::I32 => "i32".into(), Ty::U32 => "u32".into(),
         Ty::F64 => "f64".into(), Ty::F32 => "f32".into(), Ty::Str => "str".into(), Ty::Any => "any".into(), Ty::Ign => "ign".into(),
+        Ty::U16 => "u16".into(), Ty::I16 => "i16".into(), Ty::U8 => "u8".into(), Ty::I8 => "i8".into(),
         Ty::Opt(t) => format!("opt({})", show_ty(t)), Ty::Seq(t) => format!("seq({})", show_ty(t)),
         Ty::Map(t) => format!("map({})", show_ty(t)), Ty::Prop(t) => format!("prop({})", show_ty(t)),
         Ty::Struct(fs) => format!("st({})", fs.iter().map(|(n, t)| format!("{}:{}", n, show_ty(t))).collect::<Vec<_>>().join(";")),
@@ -39,7 +42,7 @@ pub fn parse_ty(s: &str) -> Option<Ty> {
 }
 
 fn parse_ty_inner(s: &str) -> Option<(Ty, &str)> {
-    for (kw, t) in [("bool", Ty::Bool), ("i64", Ty::I64), ("u64", Ty::U64), ("i32", Ty::I32), ("u32", Ty::U32), ("f64", Ty::F64), ("f32", Ty::F32), ("str", Ty::Str), ("any", Ty::Any), ("ign", Ty::Ign)] {
+    for (kw, t) in [("bool", Ty::Bool), ("i64", Ty::I64), ("u64", Ty::U64), ("i32", Ty::I32), ("u32", Ty::U32), ("f64", Ty::F64), ("f32", Ty::F32), ("str", Ty::Str), ("any", Ty::Any), ("ign", Ty::Ign), ("u16", Ty::U16), ("i16", Ty::I16), ("u8", Ty::U8), ("i8", Ty::I8)] {
         if let Some(r) = s.strip_prefix(kw) {
             if !r.starts_with(|c: char| c.is_ascii_alphanumeric() || c == '_' || c == '(') {
                 return Some((t, r));
@@ -88,6 +91,10 @@ impl<'de, 'a> DeserializeSeed<'de> for TySeed<'a> {
             Ty::I32 => i32::deserialize(d).map(|v| format!("i{}", v)),
             Ty::U64 => u64::deserialize(d).map(|v| format!("u{}", v)),
             Ty::U32 => u32::deserialize(d).map(|v| format!("u{}", v)),
+            Ty::U16 => u16::deserialize(d).map(|v| format!("u{}", v)),
+            Ty::U8 => u8::deserialize(d).map(|v| format!("u{}", v)),
+            Ty::I16 => i16::deserialize(d).map(|v| format!("i{}", v)),
+            Ty::I8 => i8::deserialize(d).map(|v| format!("i{}", v)),
             Ty::F64 => f64::deserialize(d).map(|v| format!("f{}", v.to_bits())),
             Ty::F32 => f32::deserialize(d).map(|v| format!("g{}", v.to_bits())),
             Ty::Str => String::deserialize(d).map(|v| format!("s{}", hex(v.as_bytes()))),
